@@ -770,3 +770,325 @@ Section NoTwice.
     - exact B.
   Qed.
 End NoTwice.
+
+(* ------------------------------------------------------------------------------------------- *)
+(* Start-up / restart: only strictly later slots are scheduled, whatever the node answers. *)
+
+Section Restart.
+  Variable shadowed : bool.
+  Variable c : config.
+
+  Definition later_name (cur : N) (n : jname) : Prop :=
+    match n with
+    | JAtt s | JProp s | JEarly s | JSync s => cur < s
+    | JPrep _ => False
+    end.
+  Definition later (cur : N) (t : table) : Prop := forall n j, tget t n = Some j -> later_name cur n.
+
+  Lemma due_true_later : forall cur s, due cur true s = true -> cur < s.
+  Proof.
+    intros cur s H. apply due_spec in H. destruct H as [H1 H2].
+    destruct (N.eq_dec s cur) as [->|Hne]; [specialize (H2 eq_refl); discriminate | lia].
+  Qed.
+
+  Lemma later_sched_att : forall cur hv ds ep t, later cur t -> later cur (sched_att c cur hv ds ep true t).
+  Proof.
+    intros cur hv ds ep t L n j H. rewrite sched_att_exact in H. unfold spec_sched_att in H.
+    destruct (tget t n) eqn:G; [apply (L n j0); exact G|].
+    destruct n; try discriminate.
+    destruct (hv && att_wanted c cur true ds ep slot) eqn:E; [|discriminate].
+    apply andb_true_iff in E. destruct E as [_ E]. unfold att_wanted in E.
+    apply andb_true_iff in E. destruct E as [_ E]. apply due_true_later. exact E.
+  Qed.
+
+  Lemma later_sched_prop : forall cur hv ds ep t, later cur t -> later cur (sched_prop c cur hv ds ep true t).
+  Proof.
+    intros cur hv ds ep t L n j H. rewrite sched_prop_exact in H. unfold spec_sched_prop in H.
+    destruct (tget t n) eqn:G; [apply (L n j0); exact G|].
+    destruct n; try discriminate.
+    - destruct (hv && prop_wanted c cur true ds ep slot) eqn:E; [|discriminate].
+      apply andb_true_iff in E. destruct E as [_ E]. unfold prop_wanted in E.
+      apply andb_true_iff in E. destruct E as [_ E]. apply due_true_later. exact E.
+    - destruct (hv && prop_wanted c cur true ds ep slot && (0 <? c_prop_delay c)%Z) eqn:E; [|discriminate].
+      apply andb_true_iff in E. destruct E as [E _]. apply andb_true_iff in E. destruct E as [_ E].
+      unfold prop_wanted in E. apply andb_true_iff in E. destruct E as [_ E]. apply due_true_later. exact E.
+  Qed.
+
+  Lemma sync_window_first : forall ae cur ep fe fs ls, sync_window c ae cur ep = (fe, fs, ls) -> cur <= fs.
+  Proof.
+    intros ae cur ep fe fs ls H. unfold sync_window in H. cbv zeta in H.
+    injection H as _ Hfs _. subst fs.
+    match goal with |- cur <= (if ?x <? cur then cur else ?x) => destruct (x <? cur) eqn:E end; lia.
+  Qed.
+
+  Lemma later_sched_sync : forall ae cur e ep t, later cur t -> later cur (sched_sync c ae cur e ep true t).
+  Proof.
+    intros ae cur e ep t L n j H. rewrite sched_sync_exact in H. unfold spec_sched_sync in H.
+    destruct (tget t n) eqn:G; [apply (L n j0); exact G|].
+    destruct n; try discriminate.
+    destruct (sync_wanted c ae cur e ep true slot) eqn:E; [|discriminate].
+    unfold sync_wanted in E. destruct (sync_window c ae cur ep) as [[fe fs] ls] eqn:W.
+    apply sync_window_first in W. cbn [later_name]. rewrite andb_true_r in E. lia.
+  Qed.
+
+  Theorem start_later : forall st, later (st_cur st) (st_jobs (start shadowed c st)).
+  Proof.
+    intros st. unfold start. destruct (altair_details shadowed c) as [handling ae]. cbn [st_jobs].
+    apply later_sched_att. destruct handling.
+    - cbv zeta. destruct (_ <=? 5); repeat apply later_sched_sync; apply later_sched_att; apply later_sched_prop;
+        intros n j H; discriminate.
+    - apply later_sched_att; apply later_sched_prop; intros n j H; discriminate.
+  Qed.
+End Restart.
+
+(* ------------------------------------------------------------------------------------------- *)
+(* The once-per-epoch guard of the epoch ticker. *)
+
+Section TickOnce.
+  Variable shadowed : bool.
+  Variable c : config.
+
+  Lemma tick_noop : forall st, (Z.of_N (cur_epoch c (st_cur st)) <= st_tick st)%Z -> epoch_tick c st = st.
+  Proof.
+    intros st H. unfold epoch_tick. apply Z.leb_le in H. rewrite H. reflexivity.
+  Qed.
+
+  Lemma tick_sets : forall st, (Z.of_N (cur_epoch c (st_cur st)) <= st_tick (epoch_tick c st))%Z /\
+                                st_cur (epoch_tick c st) = st_cur st.
+  Proof.
+    intros st. unfold epoch_tick. destruct (Z.of_N (cur_epoch c (st_cur st)) <=? st_tick st)%Z eqn:E.
+    - split; [apply Z.leb_le; exact E | reflexivity].
+    - cbn. split; [lia | reflexivity].
+  Qed.
+
+  Theorem tick_idempotent : forall st, epoch_tick c (epoch_tick c st) = epoch_tick c st.
+  Proof.
+    intros st. destruct (tick_sets st) as [H1 H2]. apply tick_noop. rewrite H2. exact H1.
+  Qed.
+
+  Definition not_start (o : op) : Prop := match o with Start => False | _ => True end.
+
+  Local Opaque sched_att sched_prop sched_sync refresh_att refresh_prop refresh_sync tsched tremove
+        handle_altair_fork_epoch.
+
+  Lemma run_if_exists_tick : forall st n, st_tick (run_if_exists st n) = st_tick st.
+  Proof. intros st n. unfold run_if_exists. destruct (tget (st_jobs st) n); [|reflexivity]. destruct n; reflexivity. Qed.
+
+  Lemma step_tick_mono : forall st o, not_start o -> (st_tick st <= st_tick (step shadowed c st o))%Z.
+  Proof.
+    intros st o H. destruct o; cbn [step]; cbn [not_start] in H; try contradiction; try (cbn; lia).
+    - (* Tick *) unfold epoch_tick. destruct (_ <=? _)%Z eqn:E; [lia|]. cbn. lia.
+    - (* Head *) unfold head_event. destruct (slot =? st_cur st); cbn [negb]; [|lia].
+      destruct (reorg_decide _ _ _ _ _ _) as [dp dc].
+      destruct (c_ft_att c); rewrite ?run_if_exists_tick; destruct dc, dp; cbn; lia.
+    - (* Fire *) unfold fire. destruct (tget (st_jobs st) n); [|lia].
+      destruct n; rewrite ?run_if_exists_tick; try (cbn; lia).
+      destruct (_ =? _); rewrite ?run_if_exists_tick; cbn; lia.
+  Qed.
+
+  Lemma run_tick_mono : forall ops st, Forall not_start ops -> (st_tick st <= st_tick (run shadowed c st ops))%Z.
+  Proof.
+    induction ops as [|o ops IH]; intros st H; [cbn; lia|].
+    inversion H as [|? ? Ho Hops]; subst. unfold run. cbn [fold_left].
+    pose proof (step_tick_mono st o Ho). specialize (IH (step shadowed c st o) Hops). unfold run in IH. lia.
+  Qed.
+
+  (* once the ticker has run in an epoch, any later tick of the same process in that epoch (or an
+     earlier one) does nothing, whatever happened in between *)
+  Theorem tick_once : forall st ops,
+    Forall not_start ops ->
+    let st2 := run shadowed c (epoch_tick c st) ops in
+    cur_epoch c (st_cur st2) <= cur_epoch c (st_cur st) ->
+    epoch_tick c st2 = st2.
+  Proof.
+    intros st ops H st2 He. apply tick_noop.
+    destruct (tick_sets st) as [H1 _].
+    pose proof (run_tick_mono ops (epoch_tick c st) H). fold st2 in H0. lia.
+  Qed.
+End TickOnce.
+
+(* ------------------------------------------------------------------------------------------- *)
+(* Reorg detection and its consequences. *)
+
+Section Reorg.
+  Variable c : config.
+
+  Theorem reorg_decide_spec : forall last ps cs ep pr cr,
+    (fst (reorg_decide last ps cs ep pr cr) = true <->
+       last <> 0 /\ ps <> 0 /\ ((last < ep /\ cs <> pr) \/ (ep <= last /\ ps <> pr))) /\
+    (snd (reorg_decide last ps cs ep pr cr) = true <->
+       last <> 0 /\ ep <= last /\ cs <> 0 /\ cs <> cr).
+  Proof.
+    intros last ps cs ep pr cr. unfold reorg_decide.
+    destruct (last =? 0) eqn:E0; [cbn [fst snd]; lia|].
+    destruct (last <? ep) eqn:E1; cbn [fst snd]; lia.
+  Qed.
+
+  Local Opaque sched_att sched_prop sched_sync refresh_att refresh_prop refresh_sync tsched tremove.
+
+  Lemma run_if_exists_tget : forall st n m,
+    tget (st_jobs (run_if_exists st n)) m = if jname_eqb n m then None else tget (st_jobs st) m.
+  Proof.
+    intros st n m. unfold run_if_exists. destruct (tget (st_jobs st) n) eqn:G.
+    - destruct n; cbn; apply tget_tremove.
+    - destruct (jname_eqb n m) eqn:E; [|reflexivity].
+      apply jname_eqb_spec in E. subst m. exact G.
+  Qed.
+
+  (* the head event's effect on the job table, by which handlers fire *)
+  Theorem head_event_jobs : forall st slot pr cr n,
+    slot = st_cur st ->
+    let ep := slot_to_epoch (c_ct c) slot in
+    let d := reorg_decide (st_last_epoch st) (st_prev_root st) (st_cur_root st) ep pr cr in
+    let ce := cur_epoch c (st_cur st) in
+    let t0 := st_jobs st in
+    let t1 := if fst d then refresh_att c (st_cur st) (st_env st) ce t0 else t0 in
+    let t2 := if snd d then
+                refresh_att c (st_cur st) (st_env st) (add64 ce 1)
+                  (let tp := refresh_prop c (st_cur st) (st_env st) ce t1 in
+                   if ce mod c_period c =? 0
+                   then refresh_sync c (st_altair st) (st_altair_epoch st) (st_cur st) (st_env st) (add64 ce (c_period c)) tp
+                   else tp)
+              else t1 in
+    tget (st_jobs (head_event c st slot pr cr)) n =
+    if c_ft_att c && jname_eqb (JAtt slot) n then None else tget t2 n.
+  Proof.
+    intros st slot pr cr n Hs. cbv zeta. unfold head_event. rewrite Hs, N.eqb_refl. cbn [negb].
+    destruct (reorg_decide _ _ _ _ _ _) as [dp dc]. cbn [fst snd].
+    destruct (c_ft_att c); cbn [andb]; rewrite ?run_if_exists_tget; destruct dp, dc; reflexivity.
+  Qed.
+
+  Theorem head_event_roots : forall st slot pr cr,
+    slot = st_cur st ->
+    let st' := head_event c st slot pr cr in
+    st_last_epoch st' = slot_to_epoch (c_ct c) slot /\ st_prev_root st' = pr /\ st_cur_root st' = cr.
+  Proof.
+    intros st slot pr cr Hs. cbv zeta. unfold head_event. rewrite Hs, N.eqb_refl. cbn [negb].
+    destruct (reorg_decide _ _ _ _ _ _) as [dp dc].
+    assert (R : forall s m, st_last_epoch (run_if_exists s m) = st_last_epoch s /\
+                            st_prev_root (run_if_exists s m) = st_prev_root s /\
+                            st_cur_root (run_if_exists s m) = st_cur_root s).
+    { intros s m. unfold run_if_exists. destruct (tget (st_jobs s) m); [|repeat split]. destruct m; repeat split. }
+    destruct (c_ft_att c).
+    - match goal with |- context [run_if_exists ?s ?m] => destruct (R s m) as [R1 [R2 R3]]; rewrite R1, R2, R3 end.
+      destruct dp, dc; repeat split.
+    - destruct dp, dc; repeat split.
+  Qed.
+
+  (* an event for another slot is ignored altogether *)
+  Theorem head_event_other_slot : forall st slot pr cr, slot <> st_cur st -> head_event c st slot pr cr = st.
+  Proof.
+    intros st slot pr cr H. unfold head_event. apply N.eqb_neq in H. rewrite H. reflexivity.
+  Qed.
+
+  (* a refresh replaces: the attestation jobs of the epoch afterwards are exactly those of the
+     duties the node reports now *)
+  Theorem refresh_att_replaces : forall cur e ep t n,
+    texists t (JPrep ep) = false ->
+    0 < first_slot_of_epoch (c_ct c) (add64 ep 1) ->
+    let ds := alookup (e_att e) ep in
+    let notcur := negb (epoch_has c ep cur && texists t (JAtt cur)) in
+    tget (refresh_att c cur e ep t) n =
+    match n with
+    | JAtt s => if epoch_has c ep s
+                then if e_vals e && att_wanted c cur notcur ds ep s then Some (att_job c ds ep s) else None
+                else tget t n
+    | _ => tget t n
+    end.
+  Proof.
+    intros cur e ep t n Hp Hov. cbv zeta. rewrite refresh_att_exact. unfold spec_refresh_att. rewrite Hp.
+    destruct n as [s|s|s|s|s]; try reflexivity.
+    destruct (epoch_has c ep s) eqn:E; [reflexivity|].
+    unfold spec_sched_att. destruct (tget t (JAtt s)); [reflexivity|].
+    unfold att_wanted. rewrite (in_epoch_epoch_has c ep s Hov), E.
+    rewrite andb_false_r, andb_false_l, andb_false_r. reflexivity.
+  Qed.
+
+  Theorem refresh_prop_replaces : forall cur e ep t n,
+    0 < first_slot_of_epoch (c_ct c) (add64 ep 1) ->
+    let ds := alookup (e_prop e) ep in
+    tget (refresh_prop c cur e ep t) n =
+    match n with
+    | JProp s => if epoch_has c ep s
+                 then if e_vals e && prop_wanted c cur true ds ep s then Some (prop_job c ds ep s) else None
+                 else tget t n
+    | JEarly s => if epoch_has c ep s
+                  then if e_vals e && prop_wanted c cur true ds ep s && (0 <? c_prop_delay c)%Z then Some (early_job c s) else None
+                  else tget t n
+    | _ => tget t n
+    end.
+  Proof.
+    intros cur e ep t n Hov. cbv zeta. rewrite refresh_prop_exact. unfold spec_refresh_prop.
+    destruct n as [s|s|s|s|s]; try reflexivity.
+    - destruct (epoch_has c ep s) eqn:E; [reflexivity|].
+      unfold spec_sched_prop. destruct (tget t (JProp s)); [reflexivity|].
+      unfold prop_wanted. rewrite (in_epoch_epoch_has c ep s Hov), E.
+      rewrite andb_false_r, andb_false_l, andb_false_r. reflexivity.
+    - destruct (epoch_has c ep s) eqn:E; [reflexivity|].
+      unfold spec_sched_prop. destruct (tget t (JEarly s)); [reflexivity|].
+      unfold prop_wanted. rewrite (in_epoch_epoch_has c ep s Hov), E.
+      rewrite andb_false_r, andb_false_l, andb_false_r, andb_false_l. reflexivity.
+  Qed.
+End Reorg.
+
+(* ------------------------------------------------------------------------------------------- *)
+(* No obtained future duty is left without a job. *)
+
+Section Complete.
+  Variable c : config.
+
+  Lemma existsb_slot : forall (ds : list aduty) d, In d ds -> existsb (fun x => ad_slot x =? ad_slot d) ds = true.
+  Proof. intros ds d H. apply existsb_exists. exists d. split; [exact H | apply N.eqb_refl]. Qed.
+
+  Theorem att_duty_has_job : forall cur ds ep nc t d,
+    In d ds -> in_epoch c ep (ad_slot d) = true -> due cur nc (ad_slot d) = true ->
+    exists j, tget (sched_att c cur true ds ep nc t) (JAtt (ad_slot d)) = Some j /\
+              (tget t (JAtt (ad_slot d)) = None ->
+               j = att_job c ds ep (ad_slot d) /\ In (ad_val d, ad_comm d, ad_vci d) (j_pay j)).
+  Proof.
+    intros cur ds ep nc t d Hin Hep Hdue. rewrite sched_att_exact. unfold spec_sched_att.
+    destruct (tget t (JAtt (ad_slot d))) as [j|] eqn:G.
+    - exists j. split; [reflexivity | discriminate].
+    - unfold att_wanted. rewrite (existsb_slot ds d Hin), Hep, Hdue. cbn [andb].
+      eexists. split; [reflexivity|]. intros _. split; [reflexivity|].
+      eapply Permutation_in; [apply Permutation_sym; apply att_job_payload; exact Hep|].
+      apply in_map_iff. exists d. split; [reflexivity|]. apply filter_In. split; [exact Hin | apply N.eqb_refl].
+  Qed.
+
+  Theorem prop_duty_has_job : forall cur ds ep nc t d,
+    In d ds -> in_epoch c ep (pd_slot d) = true -> due cur nc (pd_slot d) = true ->
+    exists j, tget (sched_prop c cur true ds ep nc t) (JProp (pd_slot d)) = Some j /\
+              (tget t (JProp (pd_slot d)) = None ->
+               j = prop_job c ds ep (pd_slot d) /\ In (pd_val d, 0, 0) (j_pay j)).
+  Proof.
+    intros cur ds ep nc t d Hin Hep Hdue. rewrite sched_prop_exact. unfold spec_sched_prop.
+    destruct (tget t (JProp (pd_slot d))) as [j|] eqn:G.
+    - exists j. split; [reflexivity | discriminate].
+    - unfold prop_wanted.
+      assert (He : existsb (fun x => pd_slot x =? pd_slot d) ds = true)
+        by (apply existsb_exists; exists d; split; [exact Hin | apply N.eqb_refl]).
+      rewrite He, Hep, Hdue. cbn [andb].
+      eexists. split; [reflexivity|]. intros _. split; [reflexivity|].
+      rewrite prop_job_payload by exact Hep.
+      apply in_map_iff. exists d. split; [reflexivity|]. apply filter_In. split; [exact Hin | apply N.eqb_refl].
+  Qed.
+
+  (* after a refresh the job of every not-yet-passed duty slot of the epoch carries the NEW duties *)
+  Theorem refresh_att_duty_has_job : forall cur e ep t d,
+    texists t (JPrep ep) = false -> e_vals e = true ->
+    0 < first_slot_of_epoch (c_ct c) (add64 ep 1) ->
+    In d (alookup (e_att e) ep) -> in_epoch c ep (ad_slot d) = true -> cur < ad_slot d ->
+    tget (refresh_att c cur e ep t) (JAtt (ad_slot d)) = Some (att_job c (alookup (e_att e) ep) ep (ad_slot d)) /\
+    In (ad_val d, ad_comm d, ad_vci d) (j_pay (att_job c (alookup (e_att e) ep) ep (ad_slot d))).
+  Proof.
+    intros cur e ep t d Hp Hv Hov Hin Hep Hlt.
+    rewrite (refresh_att_replaces c cur e ep t _ Hp Hov). cbv zeta.
+    rewrite <- (in_epoch_epoch_has c ep _ Hov), Hep, Hv. cbn [andb].
+    unfold att_wanted. rewrite (existsb_slot _ d Hin), Hep. cbn [andb].
+    assert (Hd : due cur (negb (epoch_has c ep cur && texists t (JAtt cur))) (ad_slot d) = true).
+    { unfold due. apply andb_true_iff. split; [lia|]. apply negb_true_iff. apply andb_false_iff. left. lia. }
+    rewrite Hd. split; [reflexivity|].
+    eapply Permutation_in; [apply Permutation_sym; apply att_job_payload; exact Hep|].
+    apply in_map_iff. exists d. split; [reflexivity|]. apply filter_In. split; [exact Hin | apply N.eqb_refl].
+  Qed.
+End Complete.
